@@ -113,7 +113,7 @@ def pyAnd (a b : PyVal) : PyVal := if a.truthy then b else a
     (= `visible_if(lambda _: False)`), or `@lcc.visible_if(c)` where `c(obj)` returns `v`.
     `selfTruthy` is the truth value of the callable `c` *itself*: `true` for functions, lambdas and
     ordinary callable instances; `false` for a callable instance that is falsy (defines `__bool__` /
-    `__len__`, e.g. a callable subclass of `list` that is empty) — see finding D33 below. -/
+    `__len__`, e.g. a callable subclass of `list` that is empty) — see finding D34 below. -/
 inductive Vis where
   | always
   | hidden
@@ -152,7 +152,7 @@ def Vis.hiddenAttr (v : Vis) : PyVal := pyAnd v.conditionObj (pyNot v.result)
 def Vis.shown (v : Vis) : Bool := !v.hiddenAttr.truthy
 
 /-- A `visible_if` whose callable is itself falsy is never consulted: for the loader the item has no
-    condition at all (finding D33). -/
+    condition at all (finding D34). -/
 def normVis : Vis → Vis
   | .cond false _ => .always
   | v => v
@@ -668,7 +668,7 @@ def stripDirs : List Dir → List Dir
   | d :: ds => stripDir d :: stripDirs ds
 end
 
-/-! ## A falsy condition callable is never consulted (finding D33)
+/-! ## A falsy condition callable is never consulted (finding D34)
 
   `hidden = md.condition and not md.condition(obj)` tests the truth value of the *callable* before
   calling it.  For a function or a lambda that is `True`; for a callable instance that is falsy (its
